@@ -46,7 +46,9 @@ def gen_cases(run):
             ops = []
             for _ in range(rng.randrange(1, 7)):
                 data = tuple(rng.choice([0, 1]) for _ in range(8))
-                if rng.random() < 0.45: ops.append((0, 0) + data)
+                r = rng.random()
+                if r < 0.12: ops.append((2, 0) + data); dist["clone_ops"] = dist.get("clone_ops", 0) + 1     # continue on a clone of the collection
+                elif r < 0.5: ops.append((0, 0) + data)
                 else: ops.append((1, rng.randrange(0, n + 1)) + data)
             cases.append(Case("collections", pre, ops, {"kind": "assumptions", "container": CONT[cont]}))
             dist["kinds"]["assumptions"] += 1; dist["verify_ops"] += len(ops)
